@@ -339,7 +339,15 @@ func (i *Interpreter) Exec(ctx context.Context, bs match.Bindings, props core.St
 		o.Interrupt(InterruptedMessage)
 	}()
 
+	// Exporting the result can run code, too (a getter of the
+	// returned object), so that happens while the watcher above
+	// is still on duty, and a panic there is an error like any
+	// other failure of the action.
+	var x interface{}
 	v, err := RunProgram(o, p)
+	if err == nil {
+		x, err = export(v)
+	}
 	cancel()
 
 	if err != nil {
@@ -348,8 +356,6 @@ func (i *Interpreter) Exec(ctx context.Context, bs match.Bindings, props core.St
 		}
 		return nil, err
 	}
-
-	x := v.Export()
 
 	var result match.Bindings
 	switch vv := x.(type) {
@@ -379,6 +385,20 @@ func canonicalize(x interface{}) (interface{}, error) {
 		return nil, err
 	}
 	return y, nil
+}
+
+// export calls v.Export and reports a panic as an error.
+func export(v goja.Value) (x interface{}, err error) {
+	defer func() {
+		if r := recover(); r != nil {
+			if ie, is := r.(*goja.InterruptedError); is {
+				err = ie
+			} else {
+				err = fmt.Errorf("%v", r)
+			}
+		}
+	}()
+	return v.Export(), nil
 }
 
 func RunProgram(o *goja.Runtime, p *goja.Program) (v goja.Value, err error) {
